@@ -78,6 +78,34 @@ theorem frame_one_hole (search : Loc) (repl : Node) (m : Module)
   · unfold rewriteAtQuery at hr; rw [hr] at h; cases h
   · exact h
 
+/-- **Frame without side condition** for replacement nodes that carry no value — an input *parameter*, an annotated
+    attribute without value, and every `--input-eval` run (`name: Literal[…]` has no value): no default is ever written,
+    so a successful rewrite changes exactly one hole. -/
+theorem frame_one_hole_quiet (search : Loc) (repl : Node) (m : Module) (hq : quiet repl = true)
+    (he : (rewriteAtQuery search repl m).2.err = none) (hr : (rewriteAtQuery search repl m).2.replaced = true) :
+    OneHole (Slot search repl) none m (rewriteAtQuery search repl m).1 :=
+  frame_one_hole search repl m he (visitList_quiet search none true { repl := repl } m ⟨rfl, hq⟩).1 hr
+
+/-- non-vacuity: `g.p → f.b` (parameter to parameter) -/
+example :
+    let r := rewriteAtQuery ["f", "b"] (.arg ⟨"p", some "str"⟩)
+      [.fn false "f" { args := [⟨"a", none⟩, ⟨"b", none⟩], defaults := ["1"] } [] [] none]
+    quiet (.arg ⟨"p", some "str"⟩) = true ∧ r.2.err = none ∧ r.2.replaced = true ∧
+      r.1.map sigView = [some ([("a", none), ("p", some "str")], ["1"])] := by decide
+
+/-- the `--input-eval` replacement node is of that kind -/
+theorem eval_node_is_quiet (cfg : Config) (search : Loc) (node : Node) (h : evalNode cfg search = .ok node) :
+    quiet node = true := by
+  unfold evalNode at h
+  split at h
+  · cases h
+  · split at h
+    · cases h
+    · rename_i vs _
+      cases hl : it2literal vs with
+      | error e => rw [hl] at h; cases h
+      | ok lit => rw [hl] at h; cases h; rfl
+
 /-- corollary, in plain terms: the rewritten module has as many statements and all but one of them are unchanged -/
 theorem frame_top_level (search : Loc) (repl : Node) (m : Module)
     (he : (rewriteAtQuery search repl m).2.err = none) (hp : (rewriteAtQuery search repl m).2.phantom = false)
